@@ -275,6 +275,10 @@ def _mpi_iter_unordered(
     if on_root():
         iterable = iter(iterable)
         yield from _mpi_root_task(iterable, ranks, comm=comm)
+        # without any worker rank (e.g. max_workers=1) no task has been
+        # dispatched, process the remaining ones on the root rank
+        wrapped_func = ParallelJob(func, func_args, func_kwargs, unpack=unpack)
+        yield from map(wrapped_func, iterable)
 
     else:
         wrapped_func = ParallelJob(func, func_args, func_kwargs, unpack=unpack)
